@@ -305,7 +305,12 @@ def struct_src(name, fields, rename_all=None, derives="Serialize, Deserialize", 
         fattrs = f[2] if len(f) > 2 else []
         for a in fattrs:
             out.append("    " + a)
-        out.append("    pub %s: %s," % (fname, fty))
+        if fname.startswith("priv:"):
+            out.append("    %s: %s," % (fname[5:], fty))          # private field
+        elif fname.startswith("crate:"):
+            out.append("    pub(crate) %s: %s," % (fname[6:], fty))
+        else:
+            out.append("    pub %s: %s," % (fname, fty))
     out.append("}")
     return "\n".join(out) + "\n\n"
 
